@@ -284,7 +284,15 @@ impl<L: Localize> OpeningHours<L> {
     /// assert_eq!(oh.state(date_2), RuleKind::Unknown);
     /// ```
     pub fn state(&self, current_time: L::DateTime) -> RuleKind {
-        self.iter_range(current_time.clone(), current_time + Duration::minutes(1))
+        // The evaluation is done on local time: adding a minute to the localized time could
+        // result in an earlier local time when clocks are turned backward.
+        let naive_time = self.ctx.locale.naive(current_time);
+
+        if naive_time >= DATE_END {
+            return RuleKind::Closed;
+        }
+
+        self.iter_range_naive(naive_time, naive_time + Duration::minutes(1))
             .next()
             .map(|dtr| dtr.kind)
             .unwrap_or(RuleKind::Closed)
